@@ -36,12 +36,18 @@ def run_programs(binary, progs, model="sync", timeout=1800):
     for p in progs:
         lines += p + ["run"]
     rc, out, err = C.run_lines(binary, [], lines, timeout=timeout)
-    # split harness output per program
+    # split harness output per program; `watchdog ...` lines (harness/watchdog.h) are kept apart: the lines of a verdict stay in the trace
+    # (they end up in the replay), the notes about environment windows only count
     traces, cur = [], []
     for l in out:
         if l == "endprog":
             traces.append(cur)
             cur = []
+        elif l.startswith("watchdog env-"):
+            C.WATCHDOG["environment_windows"] = C.WATCHDOG.get("environment_windows", 0) + 1
+            C.WATCHDOG.setdefault("notes", [])
+            if len(C.WATCHDOG["notes"]) < 5:
+                C.WATCHDOG["notes"].append(l)
         else:
             cur.append(l)
     if rc != 0 or len(traces) != len(progs):
